@@ -8,7 +8,7 @@ use crate::sim::{finish_result, Hist, HistResult, Last, Params};
 use crate::subject::{Ctor, How, Kind};
 use crate::world::{KState, SrcStep, UpStep};
 
-pub const SCENARIOS: [&str; 9] = ["starve", "budget", "quiet_stale", "quiet_budget", "oscillate", "head_of_line", "wrap", "big_cap", "cap0_adapters"];
+pub const SCENARIOS: [&str; 10] = ["starve", "budget", "quiet_stale", "quiet_budget", "oscillate", "head_of_line", "wrap", "big_cap", "cap0_adapters", "exact_burst"];
 
 fn mix(a: u64, b: u64) -> u64 {
     let mut x = a ^ b.wrapping_mul(0x9E37_79B9_7F4A_7C15);
@@ -29,6 +29,7 @@ pub fn run_scenario(p: &Params, name: &str, idx: u64) -> HistResult {
         "quiet_budget" => quiet_budget(p, seed),
         "oscillate" => oscillate(p, seed),
         "head_of_line" => head_of_line(p, seed),
+        "exact_burst" => exact_burst(p, seed),
         "wrap" => wrap(p, seed),
         "big_cap" => big_cap(p, seed),
         "cap0_adapters" => cap0_adapters(p, seed),
@@ -766,6 +767,76 @@ fn head_of_line(p: &Params, seed: u64) -> HistResult {
         }
     }
     h.drain();
+    if !w.has_violation() {
+        h.finish(false, true);
+    }
+    finish_result(h)
+}
+
+// ---------------------------------------------------------------------- exact_burst (C09, C10, C01)
+
+/// Bursts whose size sits on the internal batch boundaries (31..33, 60..65, 122/123, 127..129,
+/// 255..257): that many upstream items ready at once, or that many spawned futures all woken
+/// between two polls, followed directly by the end of the upstream (or a gap and a second
+/// burst). Driven by an honest executor: whatever per-call budget an adapter has, it must not
+/// go to sleep on it.
+fn exact_burst(p: &Params, seed: u64) -> HistResult {
+    let mut h = Hist::new(seed, p.trace);
+    h.w.armed.set(crate::sim::prop_tag(p.prop));
+    let w = h.w.clone();
+    let kind = p.kind.unwrap_or_else(|| *h.rng.pick(&[Kind::ForEach, Kind::ForEach, Kind::BufU, Kind::BufO, Kind::TryBufU, Kind::TryBufO]));
+    let nb = if p.small { *h.rng.pick(&[31usize, 32, 33, 61, 62]) } else { *h.rng.pick(&[31usize, 32, 33, 60, 61, 62, 63, 64, 65, 122, 123, 127, 128, 129, 255, 256, 257]) };
+    let mode = h.rng.below(3);
+    let limit = if mode == 1 {
+        if kind == Kind::ForEach && h.rng.chance(1, 2) {
+            0
+        } else {
+            *h.rng.pick(&[nb, nb + 1, 2 * nb])
+        }
+    } else if kind == Kind::ForEach && h.rng.chance(1, 5) {
+        0
+    } else {
+        *h.rng.pick(&[1usize, 1, 2, 3, 4, nb])
+    };
+    let mut script = vec![UpStep::Item; nb];
+    if mode == 2 {
+        script.push(UpStep::Gap);
+        let second = if h.rng.chance(1, 2) { nb } else { h.rng.range(1, 2 * nb) };
+        script.extend(std::iter::repeat(UpStep::Item).take(second));
+    }
+    script.push(UpStep::End);
+    w.install_upstream(script, h.rng.below(5) as u8, if mode == 1 { 0 } else { 100 }, 0, 0);
+    h.construct(kind, Ctor::New, limit, 0, None);
+    let mut woke_all = false;
+    for _ in 0..(8 * nb + 40) {
+        let wk = h.last_waker;
+        let r = h.poll(wk);
+        if w.has_violation() || h.subj.is_none() {
+            return finish_result(h);
+        }
+        match r {
+            Last::Done | Last::None => break,
+            Last::Item => {}
+            Last::Pending => {
+                if w.task_invoked_since(wk, h.last_start) {
+                    continue;
+                }
+                // the executor sleeps; the environment moves
+                if mode == 1 && !woke_all {
+                    woke_all = true;
+                    let ids = h.held.clone();
+                    for id in ids {
+                        h.op_complete(id, true);
+                    }
+                } else if !w.up_open_gap(true) {
+                    break;
+                }
+            }
+        }
+    }
+    if !w.has_violation() && h.subj.is_some() {
+        h.drain();
+    }
     if !w.has_violation() {
         h.finish(false, true);
     }
